@@ -248,3 +248,13 @@ fn layer_builds_one_shared_semaphore() {
     std::mem::forget(b2);
     std::mem::forget(layer);
 }
+
+/// C20 readiness clause for the bulkhead: see svc::check_readiness_passthrough.
+#[kani::proof]
+#[kani::unwind(4)]
+#[kani::stub(std::time::Instant::now, tokio::model::std_instant_now)]
+fn readiness_passthrough() {
+    let (mut b, _script) = mk(any_wait(), 1);
+    svc::check_readiness_passthrough(&mut b);
+    std::mem::forget(b);
+}
